@@ -502,3 +502,15 @@
 	// Byte-level run of write_subject_alt_names (one IPv4 entry of 4 symbolic bytes, params forgotten to avoid drop
 	// glue) was tried again during the build: no answer in 1200 s (rule K3 stands: walking a Vec of payload-carrying
 	// enums is not tractable for CBMC). The SAN / subtree / distribution-point writers are decided by engine S only.
+
+	/// @ob csr.refusal.two_fields @props C07 @kind bounded @tier thorough @timeout 1200 @bound "serial number and authority key identifier flag both set" @fns rcgen::CertificateParams::serialize_request_with_attributes
+	#[kani::proof]
+	#[kani::unwind(12)]
+	#[kani::stub(std::hash::RandomState::new, fixed_random_state)]
+	fn csr_refusal_two_fields() {
+		let mut p = bare_params();
+		let b: [u8; 2] = kani::any();
+		p.serial_number = Some(SerialNumber::from_slice(&b));
+		p.use_authority_key_identifier_extension = true;
+		refusal_check(p, true);
+	}
